@@ -249,5 +249,7 @@ def finish(ctx: Ctx, level: str = 'model_checking') -> int:
     if diverged:
         for sig, path, out in diverged:
             print(f'HARNESS-DIVERGENCE property={ctx.pid} signature={sig} replay={path}\n{out}', file=sys.stderr)
-        return 2
+        # a violation confirmed in a fresh interpreter stands on its own (exit 1); only when nothing was confirmed
+        # is the run reported as a harness problem
+        return rc or 2
     return rc
